@@ -46,10 +46,12 @@ fn draw_faults(t: &mut Tape, prop: &str) -> (FaultCfg, &'static str) {
         0 => (f, "static"),
         1 => {
             f.lat_max = 1 + t.draw(20);
+            f.tick_ns = draw_tick(t);
             (f, "lat")
         }
         _ => {
             f.lat_max = 1 + t.draw(20);
+            f.tick_ns = draw_tick(t);
             // most worlds enable one or two kinds
             let n = 1 + t.weighted(&[3, 2, 1]);
             for _ in 0..n {
@@ -70,6 +72,13 @@ fn draw_faults(t: &mut Tape, prop: &str) -> (FaultCfg, &'static str) {
             (f, "faults")
         }
     }
+}
+
+/// real time per tick as the code under test would see it on a clock: from a local store answering in
+/// microseconds to a remote index that takes seconds per call (a resolution of a few dozen ticks then
+/// spans anything from nothing to minutes)
+fn draw_tick(t: &mut Tape) -> u64 {
+    *t.pick(&[0u64, 1_000, 40_000_000, 700_000_000, 2_500_000_000, 30_000_000_000])
 }
 
 fn pick_profile(t: &mut Tape, prop: &str) -> Profile {
@@ -202,6 +211,53 @@ fn inner(prop: &str, mut t: Tape, rep: &mut WorldReport) {
             }
         }
         let ctx = format!("resolution {ri} of `{}`", txspec.name);
+        // the arguments may reach the resolver the way a client sends them: as JSON text decoded by
+        // the service boundary (interop::from_json); the oracles keep judging against the intended values
+        let mut wire_args = plan.args.clone();
+        let via_json = {
+            let mut g = w.lock().unwrap();
+            !direct && g.tape.draw(5) == 4
+        };
+        let mut shown_args = plan.shown.clone();
+        let mut json_rejected: Option<String> = None;
+        if via_json {
+            let declared = tx3_tir::reduce::find_params(&tir_tx);
+            for (k, v) in plan.args.iter() {
+                let tx3_tir::reduce::ArgValue::Int(n) = v else { continue };
+                let Some(ty) = declared.get(k) else { continue };
+                let text = {
+                    let mut g = w.lock().unwrap();
+                    match g.tape.draw(3) {
+                        // a bare JSON number, whatever its magnitude (beyond 64 bits a parser without
+                        // arbitrary precision hands the server a double)
+                        0 => format!("{n}"),
+                        1 => format!("\"{n}\""),
+                        _ => format!("\"0x{}\"", hex::encode(n.to_be_bytes())),
+                    }
+                };
+                shown_args.insert(k.clone(), format!("json {}", crate::tape::clip(&text, 60)));
+                let decoded = guarded(|| {
+                    let j: serde_json::Value = serde_json::from_str(&text).map_err(|e| format!("{e}"))?;
+                    tx3_resolver::interop::from_json(j, ty).map_err(|e| format!("{e}"))
+                });
+                match decoded {
+                    Ok(Ok(a)) => {
+                        wire_args.insert(k.clone(), a);
+                    }
+                    Ok(Err(e)) => json_rejected = Some(format!("{k}: {e}")),
+                    Err(p) => {
+                        panic_violation(rep, &p, &format!("{ctx} (argument `{k}` through from_json)"));
+                        json_rejected = Some(format!("{k}: panic"));
+                    }
+                }
+            }
+            w.lock().unwrap().fire("args-via-json");
+        }
+        if let Some(why) = json_rejected {
+            // the request is refused at the boundary: nothing is resolved
+            shown_res.push(json!({"tx": txspec.name, "args": shown_args, "result": {"outcome": "Err/argument-rejected", "text": why}}));
+            continue;
+        }
         let shown;
         if direct {
             shown = run_direct(&w, &program, &txspec, &tir_tx, &plan.args, &pp, stratum, rep, &ctx);
@@ -213,6 +269,7 @@ fn inner(prop: &str, mut t: Tape, rep: &mut WorldReport) {
                 &txspec,
                 &tir_tx,
                 &plan.args,
+                &wire_args,
                 &pp,
                 &mut comp,
                 max_rounds,
@@ -223,7 +280,7 @@ fn inner(prop: &str, mut t: Tape, rep: &mut WorldReport) {
                 &mut sig,
             );
         }
-        shown_res.push(json!({"tx": txspec.name, "args": plan.shown, "result": shown}));
+        shown_res.push(json!({"tx": txspec.name, "args": shown_args, "result": shown}));
         w.lock().unwrap().drain_events();
     }
 
@@ -232,6 +289,10 @@ fn inner(prop: &str, mut t: Tape, rep: &mut WorldReport) {
     rep.events = g.log.n;
     rep.ticks = g.now;
     rep.stub_calls = g.calls;
+    if crate::clock::reads() > 0 {
+        // nothing on the unchanged tree reads a clock; when something does, it reads the world's
+        rep.probe("clock-read-by-code-under-test");
+    }
     for (k, v) in &g.fired {
         *rep.fired.entry(k.to_string()).or_insert(0) += v;
     }
@@ -275,6 +336,7 @@ fn run_e2e(
     txspec: &TxSpec,
     tir_tx: &tir::Tx,
     args: &ArgMap,
+    wire_args: &ArgMap,
     pp: &PPCfg,
     comp: &mut SimCompiler,
     max_rounds: usize,
@@ -291,7 +353,7 @@ fn run_e2e(
     // (not under an unbounded round cap: only the wrapper can stop a loop that never ends)
     let plain = comp.fail_compile_at.is_none() && comp.fail_op_at.is_none() && max_rounds < (1usize << 32) && w.lock().unwrap().tape.chance(1, 6);
     let res = if plain {
-        let (outcome, polls) = resolve_plain(w, tir_tx, args, &mut comp.inner, max_rounds, cancel_after);
+        let (outcome, polls) = resolve_plain(w, tir_tx, wire_args, &mut comp.inner, max_rounds, cancel_after);
         comp.overrun = false;
         let g = w.lock().unwrap();
         let r = Resolution {
@@ -306,7 +368,7 @@ fn run_e2e(
         w.lock().unwrap().fire("no-wrapper");
         r
     } else {
-        resolve_once(w, tir_tx, args, comp, max_rounds, cancel_after)
+        resolve_once(w, tir_tx, wire_args, comp, max_rounds, cancel_after)
     };
     if comp.overrun {
         rep.violate(
@@ -706,6 +768,7 @@ fn run_direct(
                     g.cfg = FaultCfg {
                         lat_max: g.cfg.lat_max,
                         client_timeout: g.cfg.client_timeout,
+                        tick_ns: g.cfg.tick_ns,
                         ..Default::default()
                     };
                     g.events.clear();
@@ -1199,6 +1262,10 @@ fn inner_examples(world_no: u64, mut t: Tape, rep: &mut WorldReport) {
     rep.events = g.log.n;
     rep.ticks = g.now;
     rep.stub_calls = g.calls;
+    if crate::clock::reads() > 0 {
+        // nothing on the unchanged tree reads a clock; when something does, it reads the world's
+        rep.probe("clock-read-by-code-under-test");
+    }
     for (k, v) in &g.fired {
         *rep.fired.entry(k.to_string()).or_insert(0) += v;
     }
